@@ -799,6 +799,8 @@ type space struct {
 	maxes    []time.Duration
 	incGrid  []time.Time
 	weekDays []day
+	// longEvery: gaps now-last >= 14 d are only taken on every longEvery-th grid point
+	longEvery int
 }
 
 func buildSpace(thorough bool) space {
@@ -864,13 +866,17 @@ func buildSpace(thorough bool) space {
 	// 2018: Jan 31 is a Wednesday, February has 28 days; 70 days cross two month ends
 	if !thorough {
 		addRange(time.Date(2018, 1, 20, 0, 0, 0, 0, time.UTC), 70, 17*time.Hour+23*time.Minute)
-		addBoundary(time.Date(2018, 2, 26, 0, 0, 0, 0, time.UTC), 5)
+		addBoundary(time.Date(2018, 2, 27, 0, 0, 0, 0, time.UTC), 3)
 	} else {
 		addRange(time.Date(2018, 1, 20, 0, 0, 0, 0, time.UTC), 70, 6*time.Hour+37*time.Minute)
 		addBoundary(time.Date(2018, 2, 24, 0, 0, 0, 0, time.UTC), 9)
 		// leap February, year end
 		addRange(time.Date(2020, 2, 15, 0, 0, 30, 0, time.UTC), 30, 6*time.Hour+37*time.Minute)
 		addRange(time.Date(2019, 12, 20, 0, 0, 0, 0, time.UTC), 25, 6*time.Hour+37*time.Minute)
+	}
+	sp.longEvery = 1
+	if !thorough {
+		sp.longEvery = 3
 	}
 	sp.offsets = []time.Duration{0, time.Minute, 24 * time.Hour, 40 * 24 * time.Hour, -1}
 	sp.maxes = []time.Duration{24 * time.Hour, 14 * 24 * time.Hour, 95 * 24 * time.Hour}
@@ -1054,13 +1060,16 @@ func TestC16(t *testing.T) {
 		r.Add("expressions", 1)
 		failed := false
 	cases:
-		for _, last := range sp.grid {
+		for gi, last := range sp.grid {
 			for _, max := range sp.maxes {
 				for _, off := range sp.offsets {
 					if off < 0 {
 						off = max
 					} else if off == max {
 						continue // same case as the "max" offset
+					}
+					if sp.longEvery > 1 && off >= 14*24*time.Hour && gi%sp.longEvery != 0 {
+						continue // quick tier: the long (and costly: one Match per day stepped) gaps on every third grid point
 					}
 					now := last.Add(off)
 					o := em.checkNext(last, now, max)
@@ -1104,7 +1113,7 @@ func TestC16(t *testing.T) {
 	r.Add("distinct_nontrivial", nNontrivial)
 	if sh, _ := r.ShardIndex(); sh == 0 {
 		r.Info("bounds", map[string]int{"parse_tokens": len(parseTokens), "parse_max_tokens": tokLen, "week_specs": len(allWeekSpecs()), "week_days": len(sp.weekDays),
-			"schedule_expressions": len(sp.exprs), "last_grid": len(sp.grid), "now_offsets": len(sp.offsets), "max_values": len(sp.maxes), "includes_grid": len(sp.incGrid)})
+			"schedule_expressions": len(sp.exprs), "last_grid": len(sp.grid), "now_offsets": len(sp.offsets), "max_values": len(sp.maxes), "long_gaps_on_every_nth_grid_point": sp.longEvery, "includes_grid": len(sp.incGrid)})
 		r.Sample(c16Case{Kind: "next", Expr: sp.exprs[len(sp.exprs)/2], Last: sp.grid[7].Format(time.RFC3339), Now: sp.grid[7].Add(24 * time.Hour).Format(time.RFC3339), MaxH: 14 * 24})
 		r.Sample(c16Case{Kind: "next", Expr: sp.exprs[len(sp.exprs)-1], Last: sp.grid[len(sp.grid)-1].Format(time.RFC3339), Now: sp.grid[len(sp.grid)-1].Format(time.RFC3339), MaxH: 24})
 		r.Sample(c16Case{Kind: "parse", Expr: tokenString(pow(len(parseTokens), 4)/3, 4)})
@@ -1115,7 +1124,7 @@ func TestC16(t *testing.T) {
 
 const rule = "A: every string of <= parse_max_tokens tokens of the token alphabet (accept/reject vs reference grammar, parsed structure, String/ParseSchedule round trip); " +
 	"B: every <wday>[1-5] and every span of two on every day of week_days (Match vs calendar scan); " +
-	"C: every menu expression (<=2 week specs x <=2 clock specs, and two-event-set combinations of a reduced menu) x every last of the grid x now-last in {0,1min,1d,40d,max} x max in {1d,14d,95d}: " +
+	"C: every menu expression (<=2 week specs x <=2 clock specs, and two-event-set combinations of a reduced menu) x every last of the grid x now-last in {0,1min,1d,40d,max} x max in {1d,14d,95d} (quick: gaps >= 14d on every third grid point): " +
 	"Schedule.Next == reference next window, Includes(start), timeutil.Next == start of the earlier of {next window, limit} or 0 when that is past, attempt inside the window when spread; " +
 	"Includes == reference on the grid for expressions whose windows stay inside their day. " +
 	"distinct_nontrivial = (expression,last,now,max) cases in which a window of the timer (not the limit, not an overdue limit) decided the attempt"
